@@ -168,4 +168,30 @@ theorem idstar_line3_once (rec : Event → Except Err Expr) (ev : Event) (h2 : v
   rw [violates_removeTautologies ev h2, removeTautologies_idem, hself]
   simp
 
+/-! ## 4. non-vacuity: concrete runs of the model (kernel-evaluated) -/
+
+namespace Example07
+def gBA : MG Name := MG.fromEdges [0, 1] [(1, 0)] []      -- B → A, A = 0, B = 1
+def A : Var := Var.plain 0
+def B : Var := Var.plain 1
+def A_b : Var := { name := 0, ivs := [⟨1, false⟩] }
+def leafIs (e : Expr) (c : List Var) : Bool := match e with | .prob none c' [] => decide (c' = c) | _ => false
+def okLeaf (r : Except Err Expr) (c : List Var) : Bool := match r with | .ok x => leafIs x c | _ => false
+def okProd2 (r : Except Err Expr) (c1 c2 : List Var) : Bool :=
+  match r with | .ok (.prod [x, y]) => leafIs x c1 && leafIs y c2 | _ => false
+def isZero (r : Except Err Expr) : Bool := match r with | .ok .zero => true | _ => false
+def isUnid (r : Except Err Expr) : Bool := match r with | .error .unidentifiable => true | _ => false
+
+/-- `P(A_b = a)` on `B → A` is `P[B](A)` -/
+example : okLeaf (idStar sortWorlds (sortBy Var.keyLt) gBA [(A_b, ⟨0, false⟩)]) [A_b] = true := by decide
+/-- line 2 fires: `B_b = b'` -/
+example : isZero (idStar sortWorlds (sortBy Var.keyLt) gBA [({ name := 1, ivs := [⟨1, false⟩] }, ⟨1, true⟩)]) = true := by decide
+/-- lines 7-8 fire: `A_b = a ∧ A_{b'} = a'` is refused as unidentifiable -/
+example : isUnid (idStar sortWorlds (sortBy Var.keyLt) gBA
+    [(A_b, ⟨0, false⟩), ({ name := 0, ivs := [⟨1, true⟩] }, ⟨0, true⟩)]) = true := by decide
+/-- the model reproduces the open finding F10/M1: for `B = b' ∧ A = a` it answers `P(B) · P[B](A)` with the UNSTARRED subscript
+(the harness shows on functional SCMs that this is not `P(B = b', A = a)`) -/
+example : okProd2 (idStar sortWorlds (sortBy Var.keyLt) gBA [(B, ⟨1, true⟩), (A, ⟨0, false⟩)]) [B] [A_b] = true := by decide
+end Example07
+
 end Y0.Cf
